@@ -270,6 +270,11 @@ def run_impl(case: dict):
 
 
 def process(ctx: Ctx, cases: list[dict]) -> None:
+    # in chunks: a reply carries the whole state after every step
+    if len(cases) > 400:
+        for i in range(0, len(cases), 400):
+            process(ctx, cases[i:i + 400])
+        return
     reqs = [{"op": "sdops", "init": c["init"], "ops": c["ops"]} for c in cases]
     replies = [None] * len(cases) if ctx.oracle_only else ctx.driver(reqs)
     for c, m in zip(cases, replies):
@@ -298,10 +303,10 @@ def run(ctx: Ctx) -> None:
     cases = []
     for e in getattr(ctx, "fixed_witnesses", []):
         cases.append(e["witness"]); ctx.corpus_cases += 1
-    maxlen = 30 if ctx.tier == "quick" else 120
-    for _ in range(ctx.n(700, 12000)):
+    maxlen = 30 if ctx.tier == "quick" else 80
+    for _ in range(ctx.n(700, 5000)):
         cases.append(gen_case(rng, maxlen, ph=False, selfref=False))
-    for _ in range(ctx.n(250, 5000)):
+    for _ in range(ctx.n(250, 2000)):
         cases.append(gen_case(rng, maxlen, ph=True, selfref=False))
     for _ in range(ctx.n(150, 3000)):
         cases.append(gen_case(rng, 12, ph=False, selfref=True))
